@@ -143,9 +143,9 @@ theorem specOpsSt_append (sp : Spec) (l : List Op) (o : Op) :
 structure WF (sp0 : Spec) (c : Conf) : Prop where
   /-- the effect log, run sequentially on the reference map, gives the logged answers and ends in a map the
   database state stands for -/
-  spec : ∃ sp, Rel c.db sp ∧ specOpsSt sp0 (c.effs.map (·.op)) = (sp, c.effs.map (·.res))
+  spec : ∃ sp, Rel c.db sp ∧ specOpsSt sp0 (c.effs.reverse.map (·.op)) = (sp, c.effs.reverse.map (·.res))
   bounds : ∀ e ∈ c.effs, e.inv < e.pos ∧ e.pos < c.now
-  sorted : c.effs.Pairwise (fun a b => a.pos < b.pos)
+  sorted : c.effs.Pairwise (fun a b => b.pos < a.pos)
   nodup : c.effs.Pairwise (fun a b => a.inv ≠ b.inv)
   called : ∀ e ∈ c.effs, (⟨e.thread, e.op, e.inv⟩ : Call) ∈ c.calls
   clNow : ∀ t i, (c.cl t).inv? = some i → i < c.now
@@ -208,52 +208,44 @@ theorem wf_bg (sp0 : Spec) (c : Conf) (h : WF sp0 c) (db' : State) (comp' : Opti
     exact ⟨p, h1, h2, Nat.lt_succ_of_lt h3⟩
 
 
-/-- appending the effect of the call thread `t` is in (its lock-protected step happens now) -/
+/-- logging the effect of the call thread `t` is in (its lock-protected step happens now) -/
 theorem effs_append_ok (sp0 : Spec) (c : Conf) (h : WF sp0 c) (t : Nat) (op : Op) (i : Nat)
     (hcl : c.cl t = .invoked op i) (r : Res) :
-    (∀ x ∈ c.effs ++ [(⟨t, op, i, c.now, r⟩ : Eff)], x.inv < x.pos ∧ x.pos < c.now + 1) ∧
-    (c.effs ++ [(⟨t, op, i, c.now, r⟩ : Eff)]).Pairwise (fun a b => a.pos < b.pos) ∧
-    (c.effs ++ [(⟨t, op, i, c.now, r⟩ : Eff)]).Pairwise (fun a b => a.inv ≠ b.inv) ∧
-    (∀ x ∈ c.effs ++ [(⟨t, op, i, c.now, r⟩ : Eff)], (⟨x.thread, x.op, x.inv⟩ : Call) ∈ c.calls) := by
+    (∀ x ∈ (⟨t, op, i, c.now, r⟩ : Eff) :: c.effs, x.inv < x.pos ∧ x.pos < c.now + 1) ∧
+    ((⟨t, op, i, c.now, r⟩ : Eff) :: c.effs).Pairwise (fun a b => b.pos < a.pos) ∧
+    ((⟨t, op, i, c.now, r⟩ : Eff) :: c.effs).Pairwise (fun a b => a.inv ≠ b.inv) ∧
+    (∀ x ∈ (⟨t, op, i, c.now, r⟩ : Eff) :: c.effs, (⟨x.thread, x.op, x.inv⟩ : Call) ∈ c.calls) := by
   have hi : i < c.now := h.clNow t i (by rw [hcl]; rfl)
   refine ⟨?_, ?_, ?_, ?_⟩
   · intro x hx
-    rcases List.mem_append.1 hx with (hx | hx)
+    rcases List.mem_cons.1 hx with (hx | hx)
+    · subst hx
+      exact ⟨hi, Nat.lt_succ_self _⟩
     · obtain ⟨h1, h2⟩ := h.bounds x hx
       exact ⟨h1, Nat.lt_succ_of_lt h2⟩
-    · rw [List.mem_singleton] at hx
-      subst hx
-      exact ⟨hi, Nat.lt_succ_self _⟩
-  · rw [List.pairwise_append]
-    refine ⟨h.sorted, by simp, ?_⟩
-    intro a ha b hb
-    rw [List.mem_singleton] at hb
-    subst hb
-    exact (h.bounds a ha).2
-  · rw [List.pairwise_append]
-    refine ⟨h.nodup, by simp, ?_⟩
-    intro a ha b hb
-    rw [List.mem_singleton] at hb
-    subst hb
-    exact h.fresh t op i hcl a ha
+  · rw [List.pairwise_cons]
+    exact ⟨fun a ha => (h.bounds a ha).2, h.sorted⟩
+  · rw [List.pairwise_cons]
+    exact ⟨fun a ha => (h.fresh t op i hcl a ha).symm, h.nodup⟩
   · intro x hx
-    rcases List.mem_append.1 hx with (hx | hx)
-    · exact h.called x hx
-    · rw [List.mem_singleton] at hx
-      subst hx
+    rcases List.mem_cons.1 hx with (hx | hx)
+    · subst hx
       exact h.pend t op i hcl
+    · exact h.called x hx
 
 theorem spec_append_ok (sp0 : Spec) (c : Conf) (h : WF sp0 c) (e : Eff) (db' : State)
     (hstep : ∀ sp, Rel c.db sp → Rel db' (specOp sp e.op).1 ∧ e.res = (specOp sp e.op).2) :
-    ∃ sp, Rel db' sp ∧ specOpsSt sp0 ((c.effs ++ [e]).map (·.op)) = (sp, (c.effs ++ [e]).map (·.res)) := by
+    ∃ sp, Rel db' sp ∧
+      specOpsSt sp0 ((e :: c.effs).reverse.map (·.op)) = (sp, (e :: c.effs).reverse.map (·.res)) := by
   obtain ⟨sp, hr, hs⟩ := h.spec
   obtain ⟨h1, h2⟩ := hstep sp hr
   refine ⟨(specOp sp e.op).1, h1, ?_⟩
-  rw [List.map_append, List.map_append, List.map_singleton, List.map_singleton, specOpsSt_append, hs, h2]
+  rw [List.reverse_cons, List.map_append, List.map_append, List.map_singleton, List.map_singleton,
+    specOpsSt_append, hs, h2]
 
 /-- `inv t op` -/
 theorem wf_inv (sp0 : Spec) (c : Conf) (h : WF sp0 c) (t : Nat) (op : Op) (hcl : c.cl t = .idle) :
-    WF sp0 { c with cl := c.setCl t (.invoked op c.now), calls := c.calls ++ [⟨t, op, c.now⟩],
+    WF sp0 { c with cl := c.setCl t (.invoked op c.now), calls := ⟨t, op, c.now⟩ :: c.calls,
                     now := c.now + 1 } where
   spec := h.spec
   bounds := by
@@ -262,7 +254,7 @@ theorem wf_inv (sp0 : Spec) (c : Conf) (h : WF sp0 c) (t : Nat) (op : Op) (hcl :
     exact ⟨h1, Nat.lt_succ_of_lt h2⟩
   sorted := h.sorted
   nodup := h.nodup
-  called := fun e he => List.mem_append_left _ (h.called e he)
+  called := fun e he => List.mem_cons_of_mem _ (h.called e he)
   clNow := by
     intro t' i hi
     show i < c.now + 1
@@ -305,9 +297,9 @@ theorem wf_inv (sp0 : Spec) (c : Conf) (h : WF sp0 c) (t : Nat) (op : Op) (hcl :
       simp only [setCl_same, CState.invoked.injEq] at hi
       obtain ⟨h1, h2⟩ := hi
       subst h1 h2
-      exact List.mem_append_right _ (by simp)
+      exact List.mem_cons_self
     · simp only [setCl_other _ _ _ _ ht] at hi
-      exact List.mem_append_left _ (h.pend t' op' i hi)
+      exact List.mem_cons_of_mem _ (h.pend t' op' i hi)
   reading := by
     intro t' k i snap hi
     by_cases ht : t' = t
@@ -339,7 +331,7 @@ theorem wf_write (sp0 : Spec) (c : Conf) (h : WF sp0 c) (t : Nat) (op : Op) (i :
     (hcl : c.cl t = .invoked op i) (hrl : c.rlock = []) (db' : State) (r : Res)
     (hstep : ∀ sp, Rel c.db sp → Rel db' (specOp sp op).1 ∧ r = (specOp sp op).2) :
     WF sp0 { c with db := db', cl := c.setCl t (.done op i r),
-                    effs := c.effs ++ [⟨t, op, i, c.now, r⟩], now := c.now + 1 } := by
+                    effs := ⟨t, op, i, c.now, r⟩ :: c.effs, now := c.now + 1 } := by
   obtain ⟨e1, e2, e3, e4⟩ := effs_append_ok sp0 c h t op i hcl r
   have hinv : ∀ x, (c.setCl t (.done op i r) x).inv? = (c.cl x).inv? :=
     setCl_inv? c t _ (by rw [hcl]; rfl)
@@ -362,12 +354,11 @@ theorem wf_write (sp0 : Spec) (c : Conf) (h : WF sp0 c) (t : Nat) (op : Op) (i :
       by_cases ht : t' = t
       · subst ht; simp [setCl_same] at hj
       · simp only [setCl_other _ _ _ _ ht] at hj
-        rcases List.mem_append.1 he with (he | he)
-        · exact h.fresh t' op' j hj e he
-        · rw [List.mem_singleton] at he
-          subst he
+        rcases List.mem_cons.1 he with (he | he)
+        · subst he
           intro hij
           exact ht (h.clDistinct t' t j (by rw [hj]; rfl) (by rw [hcl]; exact congrArg some hij))
+        · exact h.fresh t' op' j hj e he
     pend := by
       intro t' op' j hj
       by_cases ht : t' = t
@@ -389,20 +380,20 @@ theorem wf_write (sp0 : Spec) (c : Conf) (h : WF sp0 c) (t : Nat) (op : Op) (i :
         simp only [setCl_same, CState.done.injEq] at hj
         obtain ⟨h1, h2, h3⟩ := hj
         subst h1 h2 h3
-        exact ⟨c.now, List.mem_append_right _ (by simp)⟩
+        exact ⟨c.now, List.mem_cons_self⟩
       · simp only [setCl_other _ _ _ _ ht] at hj
         obtain ⟨p, hp⟩ := h.done t' op' j r' hj
-        exact ⟨p, List.mem_append_left _ hp⟩
+        exact ⟨p, List.mem_cons_of_mem _ hp⟩
     hist := by
       intro e he
       obtain ⟨p, h1, h2, h3⟩ := h.hist e he
-      exact ⟨p, List.mem_append_left _ h1, h2, Nat.lt_succ_of_lt h3⟩ }
+      exact ⟨p, List.mem_cons_of_mem _ h1, h2, Nat.lt_succ_of_lt h3⟩ }
 
 /-- `readTables t`: the first half of a get -/
 theorem wf_readTables (sp0 : Spec) (c : Conf) (h : WF sp0 c) (t : Nat) (k : Key) (i : Nat)
     (hcl : c.cl t = .invoked (.get k) i) :
     WF sp0 { c with cl := c.setCl t (.reading k i c.db), rlock := t :: c.rlock,
-                    effs := c.effs ++ [⟨t, .get k, i, c.now, DBM.get c.db k⟩], now := c.now + 1 } := by
+                    effs := ⟨t, .get k, i, c.now, DBM.get c.db k⟩ :: c.effs, now := c.now + 1 } := by
   obtain ⟨e1, e2, e3, e4⟩ := effs_append_ok sp0 c h t (.get k) i hcl (DBM.get c.db k)
   have hinv : ∀ x, (c.setCl t (.reading k i c.db) x).inv? = (c.cl x).inv? :=
     setCl_inv? c t _ (by rw [hcl]; rfl)
@@ -426,12 +417,11 @@ theorem wf_readTables (sp0 : Spec) (c : Conf) (h : WF sp0 c) (t : Nat) (k : Key)
       by_cases ht : t' = t
       · subst ht; simp [setCl_same] at hj
       · simp only [setCl_other _ _ _ _ ht] at hj
-        rcases List.mem_append.1 he with (he | he)
-        · exact h.fresh t' op' j hj e he
-        · rw [List.mem_singleton] at he
-          subst he
+        rcases List.mem_cons.1 he with (he | he)
+        · subst he
           intro hij
           exact ht (h.clDistinct t' t j (by rw [hj]; rfl) (by rw [hcl]; exact congrArg some hij))
+        · exact h.fresh t' op' j hj e he
     pend := by
       intro t' op' j hj
       by_cases ht : t' = t
@@ -445,21 +435,21 @@ theorem wf_readTables (sp0 : Spec) (c : Conf) (h : WF sp0 c) (t : Nat) (k : Key)
         simp only [setCl_same, CState.reading.injEq] at hj
         obtain ⟨h1, h2, h3⟩ := hj
         subst h1 h2 h3
-        exact ⟨List.mem_cons_self, rfl, rfl, c.now, List.mem_append_right _ (by simp)⟩
+        exact ⟨List.mem_cons_self, rfl, rfl, c.now, List.mem_cons_self⟩
       · simp only [setCl_other _ _ _ _ ht] at hj
         obtain ⟨h1, h2, h3, p, hp⟩ := h.reading t' k' j snap hj
-        exact ⟨List.mem_cons_of_mem _ h1, h2, h3, p, List.mem_append_left _ hp⟩
+        exact ⟨List.mem_cons_of_mem _ h1, h2, h3, p, List.mem_cons_of_mem _ hp⟩
     done := by
       intro t' op' j r' hj
       by_cases ht : t' = t
       · subst ht; simp [setCl_same] at hj
       · simp only [setCl_other _ _ _ _ ht] at hj
         obtain ⟨p, hp⟩ := h.done t' op' j r' hj
-        exact ⟨p, List.mem_append_left _ hp⟩
+        exact ⟨p, List.mem_cons_of_mem _ hp⟩
     hist := by
       intro e he
       obtain ⟨p, h1, h2, h3⟩ := h.hist e he
-      exact ⟨p, List.mem_append_left _ h1, h2, Nat.lt_succ_of_lt h3⟩ }
+      exact ⟨p, List.mem_cons_of_mem _ h1, h2, Nat.lt_succ_of_lt h3⟩ }
 
 /-- `readMem t`: the second half of a get returns what the first half's position promised -/
 theorem wf_readMem (sp0 : Spec) (c : Conf) (h : WF sp0 c) (t : Nat) (k : Key) (i : Nat) (snap : State)
@@ -524,7 +514,7 @@ theorem wf_readMem (sp0 : Spec) (c : Conf) (h : WF sp0 c) (t : Nat) (k : Key) (i
 /-- `resp t` -/
 theorem wf_resp (sp0 : Spec) (c : Conf) (h : WF sp0 c) (t : Nat) (op : Op) (i : Nat) (r : Res)
     (hcl : c.cl t = .done op i r) :
-    WF sp0 { c with cl := c.setCl t .idle, hist := c.hist ++ [⟨t, op, i, c.now, r⟩], now := c.now + 1 } := by
+    WF sp0 { c with cl := c.setCl t .idle, hist := ⟨t, op, i, c.now, r⟩ :: c.hist, now := c.now + 1 } := by
   have hinv : ∀ x j, (c.setCl t .idle x).inv? = some j → (c.cl x).inv? = some j := by
     intro x j hj
     by_cases hx : x = t
@@ -567,13 +557,12 @@ theorem wf_resp (sp0 : Spec) (c : Conf) (h : WF sp0 c) (t : Nat) (op : Op) (i : 
         exact h.done t' op' j r' hj
     hist := by
       intro e he
-      rcases List.mem_append.1 he with (he | he)
-      · obtain ⟨p, h1, h2, h3⟩ := h.hist e he
-        exact ⟨p, h1, h2, Nat.lt_succ_of_lt h3⟩
-      · rw [List.mem_singleton] at he
-        subst he
+      rcases List.mem_cons.1 he with (he | he)
+      · subst he
         obtain ⟨p, hp⟩ := h.done t op i r hcl
-        exact ⟨p, hp, (h.bounds _ hp).2, Nat.lt_succ_self _⟩ }
+        exact ⟨p, hp, (h.bounds _ hp).2, Nat.lt_succ_self _⟩
+      · obtain ⟨p, h1, h2, h3⟩ := h.hist e he
+        exact ⟨p, h1, h2, Nat.lt_succ_of_lt h3⟩ }
 
 
 theorem isEmpty_false_eq_nil {α : Type} (l : List α) (h : ¬ ((!l.isEmpty) = true)) : l = [] := by
@@ -704,23 +693,24 @@ theorem pairwise_unique {α : Type} (f : α → Nat) (l : List α) (h : l.Pairwi
     · exact ih h.2 hx hy
 
 theorem witness_of_wf (sp0 : Spec) (c : Conf) (h : WF sp0 c) :
-    IsWitness sp0 c.calls c.hist (c.effs.map effW) where
+    IsWitness sp0 c.calls.reverse c.hist.reverse (c.effs.reverse.map effW) where
   called := by
     intro e he
     obtain ⟨x, hx, rfl⟩ := List.mem_map.1 he
-    exact h.called x hx
+    exact List.mem_reverse.2 (h.called x (List.mem_reverse.1 hx))
   nodup := by
-    rw [List.pairwise_map]
-    exact h.nodup
+    rw [List.pairwise_map, List.pairwise_reverse]
+    exact h.nodup.imp (fun hab => Ne.symm hab)
   complete := by
     intro e he
-    obtain ⟨p, hp, _⟩ := h.hist e he
-    exact ⟨_, List.mem_map.2 ⟨_, hp, rfl⟩, rfl, rfl, rfl, rfl⟩
+    obtain ⟨p, hp, _⟩ := h.hist e (List.mem_reverse.1 he)
+    exact ⟨_, List.mem_map.2 ⟨_, List.mem_reverse.2 hp, rfl⟩, rfl, rfl, rfl, rfl⟩
   realtime := by
-    rw [List.pairwise_map]
+    rw [List.pairwise_map, List.pairwise_reverse]
     refine h.sorted.imp_of_mem ?_
-    intro a b ha hb hab e he hinv hlt
-    obtain ⟨p, hp, hp2, _⟩ := h.hist e he
+    intro b a hb ha hab e he hinv hlt
+    -- `b` is newer than `a`: in the witness `a` stands before `b`
+    obtain ⟨p, hp, hp2, _⟩ := h.hist e (List.mem_reverse.1 he)
     have : (⟨e.thread, e.op, e.inv, p, e.res⟩ : Eff) = b :=
       pairwise_unique (·.inv) c.effs h.nodup _ _ hp hb hinv
     subst this
@@ -730,11 +720,9 @@ theorem witness_of_wf (sp0 : Spec) (c : Conf) (h : WF sp0 c) :
   legal := by
     obtain ⟨sp, _, hs⟩ := h.spec
     simp only [specOps, List.map_map]
-    have h1 : (effW · |>.op) = fun e : Eff => e.op := rfl
-    have : (List.map ((fun x => x.op) ∘ effW) c.effs) = c.effs.map (·.op) := rfl
+    have : (List.map ((fun x => x.op) ∘ effW) c.effs.reverse) = c.effs.reverse.map (·.op) := rfl
     rw [this, hs]
     rfl
-
 
 /-! ## the statements used by SST/Props/C05.lean -/
 
